@@ -53,13 +53,18 @@ def monitor(am, engine, cx, events, snaps):
             out.append(("external event(s) %s accepted while running were never processed (cuts: %s)" % (lost, cuts), sig))
     # each event is processed on a stable (legal) configuration: never interleaved with a transition in flight
     active = set()
+    at_begin = set()
     started = False
     for o in log:
         if o[0] == "enter":
             active.add(o[1])
         elif o[0] == "leave":
             active.discard(o[1])
+        elif o[0] == "err":
+            # an aborted transition is rolled back: the configuration is again what it was when the event began (no enter records)
+            active = set(at_begin)
         elif o[0] == "begin":
+            at_begin = set(active)
             if not am.legal(active):
                 out.append(("event %r began processing on the unstable configuration %s (interleaved with a transition in flight)"
                             % (o[1], sorted(active)), None))
@@ -123,6 +128,100 @@ def family(rng, n):
     return cases
 
 
+def abort_raise_machine(rng):
+    """a transition whose exit / transition actions RAISE an event and then hit a fatal configuration error (an action without
+    implementation): the transition is rolled back, the interpreter keeps running, and the event that was raised - it had been
+    accepted into the queue - must still be processed, exactly once.  (Fifth-round seeded change C04-D made the sync rollback pop
+    the queue back to its depth before the transition.)"""
+    tid = itertools.count(1)
+    mark = itertools.count(1)
+    nodes = [Node(0, "m", None, "compound"), Node(1, "a", 0, "atomic"), Node(2, "b", 0, "atomic"), Node(3, "c", 0, "atomic")]
+    nodes[0].children = [1, 2, 3]
+    nodes[0].initial = 1
+    am = AM(nodes, max_iter=8)
+    where = rng.choice(["transition", "exit", "both"])
+    acts = [("mark", next(mark))]
+    if where in ("transition", "both"):
+        acts.append(("raise", "F", rng.randint(1, 9)))
+    if rng.random() < 0.5:
+        acts.append(("raise", "G", rng.randint(1, 9)))
+    acts.append(("missing", next(mark)))
+    if where in ("exit", "both"):
+        nodes[1].exit = [("raise", "G", rng.randint(1, 9)), ("mark", next(mark))]
+    nodes[1].on.append(("E", [Trans(next(tid), 1, "E", 2, actions=acts)]))
+    nodes[1].on.append(("OK", [Trans(next(tid), 1, "OK", 2, actions=[("raise", "F", rng.randint(1, 9)), ("mark", next(mark))])]))
+    nodes[2].on.append(("BACK", [Trans(next(tid), 2, "BACK", 1, actions=[("mark", next(mark))])]))
+    for ev, tgt in (("F", rng.choice([None, 3])), ("G", None)):
+        nodes[0].on.append((ev, [Trans(next(tid), 0, ev, tgt, actions=[("mark", next(mark))])]))
+    return am
+
+
+def abort_raise_family(rng, n):
+    cases = []
+    for i in range(n):
+        am = abort_raise_machine(rng)
+        runs = []
+        for r in range(2):
+            tag = itertools.count(100)
+            ops = [("E", "plain", next(tag))]
+            for _ in range(rng.randint(1, 3)):
+                e = rng.choice(["E", "OK", "BACK", "F", "E"])
+                if rng.random() < 0.3:
+                    ops.append(("burst", [(rng.choice(["E", "F", "G"]), "plain", next(tag)) for _ in range(rng.randint(2, 4))]))
+                else:
+                    ops.append((e, "plain", next(tag)))
+            runs.append(({0: 0, 1: 0}, ops))
+        cases.append((am, ("sync", "async")[i % 2], runs, None))
+    return cases
+
+
+def raised_monitor(am, engine, cx, events, snaps):
+    """the rule of `monitor`, and: every event an action RAISED while the interpreter was running is processed (begins) afterwards,
+    as often as it was raised - unless the run was cut by a bound, or the interpreter left `running`"""
+    out = monitor(am, engine, cx, events, snaps)
+    if out or any("special" in s for s in snaps):
+        return out
+    log = snaps[-1]["log"]
+    if snaps[-1]["status"] != 1 or any(o[0] == "cut" for o in log):
+        return out
+    raises = {}
+    for t in am.all_trans():
+        for a in t.actions:
+            if a[0] == "raise":
+                raises.setdefault(("t", t.tid), []).append(a)
+    # what was raised is read off the executed `mark` that precedes it in the same action list (every list here starts with one)
+    raised, begun = {}, {}
+    for o in log:
+        if o[0] == "begin" and o[2] < 100:
+            begun[(o[1], o[2])] = begun.get((o[1], o[2]), 0) + 1
+    for n in am.nodes:
+        lists = [n.entry, n.exit] + [t.actions for _, ts in n.on for t in ts]
+        for acts in lists:
+            marks = [a[1] for a in acts if a[0] == "mark"]
+            for j, a in enumerate(acts):
+                if a[0] != "raise":
+                    continue
+                before = [b[1] for b in acts[:j] if b[0] == "mark"]
+                after = [b[1] for b in acts[j + 1:] if b[0] == "mark"]
+                # the raise ran as often as the mark before it ran (lists are executed left to right, a fault truncates the rest)
+                anchor = before[-1] if before else None
+                if anchor is None:
+                    continue
+                times = sum(1 for o in log if o[0] == "act" and o[1] == anchor)
+                raised[(a[1], a[2])] = raised.get((a[1], a[2]), 0) + times
+    # (a propagating configuration error leaves the rest of the queue in place for the next send(): what still waits there at the
+    #  end of the run is pending, not lost)
+    for q in snaps[-1].get("queue", []):
+        if len(q) >= 2 and isinstance(q[1], int) and q[1] < 100:
+            begun[(q[0], q[1])] = begun.get((q[0], q[1]), 0) + 1
+    for key, times in raised.items():
+        if begun.get(key, 0) < times:
+            out.append(("an action raised event %s (tag %d) %d time(s) while the interpreter was running, but it began processing (or still waits in the queue) only %d time(s): "
+                        "an event accepted into the queue was lost" % (key[0], key[1], times, begun.get(key, 0)), None))
+            break
+    return out[:1]
+
+
 def run(rep, ctx):
     rng = random.Random(ctx["seed"] * 7919 + 4)
     big = ctx["tier"] == "thorough"
@@ -132,6 +231,12 @@ def run(rep, ctx):
         "random machines with raising actions (small maxIterations) and start-up machines whose entry/always actions raise; operations are "
         "single sends and send_events bursts of 2-7 externally tagged events; monitor: each accepted external event begins processing exactly "
         "once, in sending order, on a legal (stable) configuration")
+
+    dis2, fails2, _ = common.run_macro_property(
+        rep, ctx, "c04_abort", abort_raise_family(rng, 240 if big else 60), raised_monitor,
+        "transitions whose exit / transition actions raise events and then abort on a missing implementation (rolled back, interpreter "
+        "keeps running): what was raised before the abort is still processed, as often as it was raised")
+    dis, fails = dis + dis2, fails + fails2
 
     # producers that are other actors: an interpreter relaying events to / from its children
     from harness.props import c15
@@ -155,4 +260,4 @@ def replay(payload):
     if "steps" in case:
         from harness.props import c15
         return c15.replay(payload)
-    return common.replay_macro(payload, monitor)
+    return common.replay_macro(payload, raised_monitor)
